@@ -776,6 +776,37 @@ func (x *c01ctx) outputCursors(counts map[string]int) {
 					counts["cursor"]++
 					okC, trail := x.advancesBefore(fl, w, id.Name, func(nd ast.Node) bool { return isWriteAt(nd, id.Name, true) }, false)
 					c.Check(okC, x.key("cursor-advances", idx), pr.Pos(w.call.Pos()), "after the write at output column "+id.Name+" the column index is not advanced before the next column is written: a column is overwritten and another left unset", trail...)
+					if !seenCursor["col:"+id.Name] {
+						seenCursor["col:"+id.Name] = true
+						// the column index moves only past a column that was written
+						okS := true
+						var tr2 []string
+						fl.Walk(fl.Entry(), "none", nil, Visitor{NoFacts: true,
+							Node: func(nd ast.Node, st string, s *Step) (string, bool) {
+								if !okS {
+									return st, true
+								}
+								if isWriteAt(nd, id.Name, true) {
+									return "written", false
+								}
+								if assignsTo(nd, id.Name) {
+									adv := false
+									switch a := nd.(type) {
+									case *ast.IncDecStmt:
+										adv = true
+									case *ast.AssignStmt:
+										adv = a.Tok != token.ASSIGN && a.Tok != token.DEFINE
+									}
+									if adv && st != "written" {
+										okS, tr2 = false, s.Trail()
+										return st, true
+									}
+									return "fresh", false
+								}
+								return st, false
+							}})
+						c.Check(okS, x.key("column-cursor-skips-nothing", 0)+"|"+id.Name, pr.Pos(w.call.Pos()), "the output column index "+id.Name+" is advanced past a column that was not written in this row: the caller's frame keeps whatever an earlier row left there, and the row shows values that belong to another key", tr2...)
+					}
 				}
 			}
 		}
